@@ -473,8 +473,9 @@ PROPS["C16"] = {
 
 PROPS["C11"] = {
     "legs": [plain("exh", "pslice", "TestC11Exhaustive", solo=True),
+             plain("alias", "pslice", "TestC11Alias", solo=True),
              rapid("rand", "pslice", "TestC11Rand", 4, 10000, 16, 400000)],
-    "rule": "A case is one input pair {lhs, rhs} of slice.EditScript (integer elements). leg exh enumerates, in order of "
+    "rule": "leg alias: lhs and rhs are two windows buf[i:j], buf[k:l] of ONE backing array (a slice diffed against its own prefix, suffix or appended version): every buffer over {0,1,2} of length <=6 (quick) / <=8 (thorough) x every ordered pair of windows of which one reaches the end; one rand case in six is built the same way. A case is one input pair {lhs, rhs} of slice.EditScript (integer elements). leg exh enumerates, in order of "
             "total length and spread over all cores, EVERY pair over {0,1,2} with both lengths <= 6 and every pair over "
             "{0,1} with both lengths <= 9 (quick; 2.2 M pairs) / {0,1,2} <= 8, {0,1} <= 11 and every pair over {0,1,2,3} "
             "<= 6 that uses the symbol 3 (thorough; 142 M pairs); the scopes are disjoint by construction, so every "
